@@ -123,7 +123,8 @@ def table():
         meta = json.load(open(mp))
         cs = ", ".join(f"{c}:{'CAUGHT' if r['exit'] == 1 else ('miss' if r['exit'] == 0 else 'ERR')}"
                        for c, r in sorted(meta.get("checks", {}).items()))
-        print(f"{name:12s} {cs}")
+        note = " [obsolete: no longer violates]" if meta.get("obsolete") else " [differential]" if meta.get("differential") else ""
+        print(f"{name:12s} {cs}{note}")
 
 
 if __name__ == "__main__":
